@@ -1191,6 +1191,66 @@ func genWatchScript(r *rand.Rand, si int, crash bool) watchScript {
 	return sc
 }
 
+// Histories in which consecutive VALID texts differ but have exactly the same byte length (the loop
+// must compare texts, not lengths or stale buffers), with controls one byte shorter / longer, and
+// histories whose texts differ in white space only (same table; the post-install bookkeeping -
+// logRoutes - sees an "empty" difference), each under every log.routes.format value.
+func directedWatchScripts(r *rand.Rand, rounds int) []watchScript {
+	type sub struct{ from, to string }
+	sameLen := []sub{{":5000/", ":5001/"}, {"svc-a", "svc-c"}, {"a.test", "c.test"}, {"weight 0.10", "weight 0.20"}, {"10.0.0.1", "10.0.0.7"}, {"/foo", "/fop"}}
+	var out []watchScript
+	mk := func(class, format string, steps [][2]interface{}) {
+		sc := watchScript{class: class, texts: []string{""}, format: format}
+		for _, st := range steps {
+			t := st[1].(string)
+			i := -1
+			for k, x := range sc.texts {
+				if x == t {
+					i = k
+				}
+			}
+			if i < 0 {
+				sc.texts = append(sc.texts, t)
+				i = len(sc.texts) - 1
+			}
+			m := 0
+			if st[0].(bool) {
+				m = 1
+			}
+			sc.evs = append(sc.evs, [3]int{m, i, 0}, [3]int{m, i, 1})
+		}
+		out = append(out, sc)
+	}
+	S := func(t string) [2]interface{} { return [2]interface{}{false, t} }
+	M := func(t string) [2]interface{} { return [2]interface{}{true, t} }
+	for round := 0; round < rounds; round++ {
+		for _, format := range []string{"delta", "detail", "all", "bogus"} {
+			base := fmt.Sprintf("route add svc-a a.test/ http://10.0.0.1:5000/\nroute add svc-b b.test/foo http://10.0.0.2:%d/ weight 0.10", 8000+r.Intn(1000))
+			su := sameLen[r.Intn(len(sameLen))]
+			v1 := strings.Replace(base, su.from, su.to, 1)
+			su2 := sameLen[r.Intn(len(sameLen))]
+			v2 := strings.Replace(v1, su2.from, su2.to, 1)
+			if v2 == v1 {
+				v2 = strings.Replace(v1, "svc-b", "svc-d", 1)
+			}
+			other := base + "\nroute add svc-e e.test/ http://10.0.0.5:80/"
+			// same length, directly after the installed text
+			mk("watch-equal-length", format, [][2]interface{}{S(base), S(v1), S(v2), S(base)})
+			// same length after an invalid text of any length
+			mk("watch-equal-length-after-invalid", format, [][2]interface{}{S(base), S(pick(r, badTexts)), S(v1), S("rout x" + strings.Repeat("y", len(base)-6)), S(v2)})
+			// same length as the text two steps ago
+			mk("watch-equal-length-two-steps", format, [][2]interface{}{S(base), S(other), S(v1), S(other), S(base)})
+			// manual overrides of equal length
+			mk("watch-equal-length-manual", format, [][2]interface{}{S(base), M("route del svc-a"), M("route del svc-b"), M("route del svc-a"), M("route del svc-x")})
+			// controls: one byte shorter / longer
+			mk("watch-length-controls", format, [][2]interface{}{S(base), S(strings.Replace(base, ":5000/", ":500/", 1)), S(strings.Replace(base, ":5000/", ":50000/", 1)), S(base)})
+			// white space only: the same table, a different text
+			mk("watch-whitespace-only", format, [][2]interface{}{S(base), S(base + "\n"), S(base + " "), S(strings.Replace(base, " ", "  ", 3)), S(strings.Replace(base, "\n", "\r\n", -1)), S(base + "\n\n"), M("\n"), M(" "), M(""), S("\t" + base)})
+		}
+	}
+	return out
+}
+
 func runDriver(run *vh.Run, jobs []wJob) (map[int][]wLine, map[int]bool, map[int]string) {
 	lines := map[int][]wLine{}
 	done := map[int]bool{}
@@ -1297,6 +1357,8 @@ func loopCases(run *vh.Run) {
 	for si := 0; si < ncrash; si++ {
 		scripts = append(scripts, genWatchScript(r, si, true))
 	}
+	// directed histories with their own random stream (the classes above keep their inputs)
+	scripts = append(scripts, directedWatchScripts(rand.New(rand.NewSource(run.Seed*7919+2)), run.Scale(1, 8))...)
 	var jobs []wJob
 	for _, sc := range scripts {
 		j := wJob{Kind: "watch", Format: sc.format}
@@ -1758,6 +1820,10 @@ func stress(run *vh.Run) {
 		}(k)
 	}
 	time.Sleep(dur)
+	// on a loaded machine keep going until the run means something (at most 40 s more)
+	for extra := 0; extra < 400 && (atomic.LoadInt64(&lookups) < 1000 || atomic.LoadInt64(&generations) < 10); extra++ {
+		time.Sleep(100 * time.Millisecond)
+	}
 	atomic.StoreInt32(&stop, 1)
 	wg.Wait()
 	route.SetTable(make(route.Table))
